@@ -475,9 +475,11 @@ def mutate_items(rng, sub, items, depth=0):
 
 # ---------------------------------------------------------------- output side (C12)
 def from_py(x):
-    """value representation of a real value (mappings become plain 'D')"""
+    """value representation of a real value: a mapping that refuses item assignment (observed as a user would, `is_frozen`) is an
+    immutable mapping 'F', any other mapping a plain dict 'D'.  The distinction matters on the output side: an emitted immutable
+    mapping is a VALUE (no `dict` for `validate_dynamic_ports`, nothing can be stored below it), not a level of the outputs tree."""
     if is_mapping(x):
-        return ('D', [(k, from_py(v)) for k, v in x.items()])
+        return ('F' if is_frozen(x) else 'D', [(k, from_py(v)) for k, v in x.items()])
     return ('A', atom_ty(x), atom_id(x))
 
 
@@ -537,20 +539,26 @@ def ref_accepts_out(attrs, sub, path, v):
 
 
 def ref_insert(items, segs, v):
-    """nested insertion; raises PathError when a non-mapping is in the way"""
+    """nested insertion into the plain-dict levels of the outputs; raises PathError when a value that is not a plain dict is in the
+    way: an atom, or an immutable mapping that was emitted (at the top of the outputs or inside an emitted plain dict) - such a
+    mapping is a value, not a place to store below.  `.direct` says whether the value in the way sits exactly where the new entry
+    would have to be assigned (the code's item assignment fails) or higher up (its `setdefault` fails)."""
     if len(segs) == 1:
         return [(k, x) for k, x in items if k != segs[0]] + [(segs[0], v)]
     cur = dict(items).get(segs[0])
     if cur is None:
         inner = []
-    elif cur[0] == 'A':
-        raise PathError('a value that is not a mapping is stored there')
+    elif cur[0] != 'D':
+        e = PathError('a value that is not a plain dict is stored there')
+        e.direct = len(segs) == 2
+        raise e
     else:
         inner = cur[1]
     return [(k, x) for k, x in items if k != segs[0]] + [(segs[0], ('D', ref_insert(inner, segs[1:], v)))]
 
 
 def canon(v):
+    """keys sorted; the kind of a mapping (plain 'D' / immutable 'F') is part of the value"""
     if v[0] == 'A':
         return v
-    return ('D', sorted(((k, canon(x)) for k, x in v[1]), key=lambda kv: kv[0]))
+    return (v[0], sorted(((k, canon(x)) for k, x in v[1]), key=lambda kv: kv[0]))
